@@ -12,7 +12,9 @@
 (*  - the script fixes, for every offset k, the doubled b-momentum P[k] (any      *)
 (*    small integer) and the class of the point: 0 in the slice (joint -1),       *)
 (*    1 in the slice (joint -1.5), 2 outside the slice (joint -50), 3 divergent   *)
-(*    (joint -5000); log u = -2, joint_0 = -1.                                    *)
+(*    (joint -5000), 4 far ABOVE the slice level (joint +3000: in the slice, and   *)
+(*    not a divergence -- the bound of 1000 is one-sided); log u = -2,            *)
+(*    joint_0 = -1.                                                               *)
 (*  - the gradient script G that realises P under the leapfrog map, and the       *)
 (*    doubled b-positions B2, follow by exact integer recurrences:                *)
 (*       forward   G[k+1] = P[k+1] - P[k] - G[k],   B2[k+1] = B2[k] + P[k] + G[k] *)
@@ -37,14 +39,14 @@ VARIABLE cs            \* the script: [v, j, p0, lev, pp]
 rvars == <<vars, cs>>
 
 Pow2(k) == 2 ^ k
-Levels == 0..3
+Levels == 0..4
 Moms == {-6, 0, 6}
 
 Lcg(z) == (z * 75 + 74) % 65537
 RECURSIVE Draws(_, _)
 Draws(k, z) == IF k = 0 THEN <<>> ELSE LET z2 == Lcg(z) IN <<z2>> \o Draws(k - 1, z2)
 \* sampled scripts favour points in the slice (so that deep trees are actually built)
-SampleLev(x) == LET r == x % 16 IN IF r < 9 THEN 0 ELSE IF r < 12 THEN 1 ELSE IF r < 15 THEN 2 ELSE 3
+SampleLev(x) == LET r == x % 16 IN IF r < 8 THEN 0 ELSE IF r < 9 THEN 4 ELSE IF r < 12 THEN 1 ELSE IF r < 15 THEN 2 ELSE 3
 SampleMom(x) == LET r == (x \div 16) % 8 IN IF r < 5 THEN 0 ELSE IF r < 7 THEN 6 ELSE -6
 Sampled(vv, jj, sd) ==
   LET d == Draws(Pow2(jj) + 1, sd * 131 + jj * 17 + (IF vv = 1 THEN 3 ELSE 5))
@@ -66,8 +68,8 @@ B2s(c, i) == IF i = 0 THEN 0
              ELSE IF c.v = 1 THEN B2s(c, i - 1) + Pd(c, i - 1) + Gs(c, i - 1)
                   ELSE B2s(c, i - 1) - Pd(c, i - 1) + Gs(c, i - 1)
 AbsI(k) == IF k < 0 THEN -k ELSE k
-InSlice(c, off) == c.lev[AbsI(off)] <= 1
-NotDiverged(c, off) == c.lev[AbsI(off)] <= 2
+InSlice(c, off) == c.lev[AbsI(off)] \in {0, 1, 4}
+NotDiverged(c, off) == c.lev[AbsI(off)] # 3
 NoUTurn(c, l, h) ==
   LET d == B2s(c, AbsI(h)) - B2s(c, AbsI(l)) IN
   /\ 4 * (h - l) + d * Pd(c, AbsI(l)) >= 0
